@@ -601,3 +601,103 @@ func isCallResultAny(v ssa.Value) bool {
 }
 
 func (c *Ctx) isParserSlot(fn *ssa.Function) bool { return strings.HasSuffix(fn.Name(), "Parse") }
+
+// ruleSecondHelloEqualsFirst (C04 / C13): the ClientHello that echoes the HelloVerifyRequest
+// cookie is accepted only if it is byte-for-byte the first ClientHello apart from the cookie:
+// the bytes before the cookie and the bytes after it are compared as bytes (not as decoded,
+// re-ordered or re-encoded values), and the echoed cookie is compared with the issued one. The
+// first ClientHello is not part of the Finished transcript, so this comparison is what binds the
+// parameters the server already acted on (flight 0) to the handshake that completes.
+func ruleSecondHelloEqualsFirst(c *Ctx, r *Report) {
+	const rule = "second-hello-equals-first"
+	fn := c.need(r, rule, "internal/negotiation.ValidateHelloVerifyRequestResponse")
+	if fn == nil {
+		return
+	}
+	r.Sites += len(fn.Blocks)
+	ok0 := successReturn(fn)
+	if ok0 == nil {
+		r.Unk(rule, short(fn), c.pos(fn.Pos()), "no unique nil return")
+		return
+	}
+	// part(v) = (which snapshot parameter, which component) when v is a component of
+	// helloVerifyClientHelloParts(<param>)
+	part := func(v ssa.Value) (string, int) {
+		ex, ok := v.(*ssa.Extract)
+		if !ok {
+			return "", -1
+		}
+		call, ok := ex.Tuple.(*ssa.Call)
+		if !ok || len(call.Call.Args) != 1 {
+			return "", -1
+		}
+		callee := call.Call.StaticCallee()
+		if callee == nil || callee.Pkg != fn.Pkg || callee.Signature.Results().Len() != 3 {
+			return "", -1
+		}
+		p, ok := call.Call.Args[0].(*ssa.Parameter)
+		if !ok {
+			return "", -1
+		}
+		return fmt.Sprint(paramIndex(p)), ex.Index
+	}
+	have := map[string]bool{}
+	for _, e := range findCalls(fn, nameIs("bytes.Equal", "crypto/subtle.ConstantTimeCompare", "crypto/hmac.Equal")) {
+		a, b := e.Call.Args[0], e.Call.Args[1]
+		pa, ia := part(a)
+		pb, ib := part(b)
+		var rv ssa.Value = e
+		g, _ := guardedBy(e, rv, ok0)
+		if !g {
+			continue
+		}
+		switch {
+		case pa != "" && pb != "" && pa != pb && ia == ib && (ia == 0 || ia == 1):
+			have[fmt.Sprintf("part%d", ia)] = true
+		case (ia == 2 && pa != "" && isParamIdx(b, 2)) || (ib == 2 && pb != "" && isParamIdx(a, 2)):
+			have["cookie"] = true
+		}
+	}
+	r.Check(have["part0"], rule, short(fn)+":before-cookie", c.pos(fn.Pos()), "bytes before the cookie compared as bytes; success only if equal", "the second ClientHello is accepted without a byte comparison of the part before the cookie with the first ClientHello")
+	r.Check(have["part1"], rule, short(fn)+":after-cookie", c.pos(fn.Pos()), "bytes after the cookie compared as bytes; success only if equal", "the second ClientHello is accepted without a byte comparison of the part after the cookie (cipher suites, compression methods, extensions) with the first ClientHello: an on-path attacker can alter the first ClientHello, which the server has already acted on and which no Finished covers")
+	r.Check(have["cookie"], rule, short(fn)+":cookie", c.pos(fn.Pos()), "echoed cookie compared with the issued cookie", "the echoed cookie is not compared with the cookie the server issued")
+	// the splitter cuts the snapshot body only: before = body[:k], after = body[k':], both of the same snapshot
+	for _, call := range findCalls(fn, func(n string) bool { return strings.HasPrefix(n, "internal/negotiation.") }) {
+		callee := call.Call.StaticCallee()
+		if callee == nil || callee.Signature.Results().Len() != 3 || len(callee.Params) != 1 {
+			continue
+		}
+		okCut := true
+		for _, b := range callee.Blocks {
+			ret, isRet := b.Instrs[len(b.Instrs)-1].(*ssa.Return)
+			if !isRet {
+				continue
+			}
+			for i := 0; i < 3; i++ {
+				v := unspill(ret.Results[i])
+				if isNilConst(v) {
+					continue
+				}
+				if !allLeaves(c.Origins(v, 0), func(l ssa.Value) bool {
+					for {
+						sl, isSl := l.(*ssa.Slice)
+						if !isSl {
+							break
+						}
+						l = sl.X
+					}
+					return isFieldLoad(l, "internal/negotiation.ClientHelloSnapshot", "body")
+				}) {
+					okCut = false
+				}
+			}
+		}
+		r.Check(okCut, rule, short(callee), c.pos(callee.Pos()), "the three parts are slices of the snapshot's raw body", "the compared parts are not slices of the raw ClientHello body")
+		break
+	}
+}
+
+func isParamIdx(v ssa.Value, idx int) bool {
+	p, ok := v.(*ssa.Parameter)
+	return ok && paramIndex(p) == idx
+}
